@@ -87,10 +87,10 @@ impl StatelessTransportState {
         payload: &[u8],
         message: &mut [u8],
     ) -> Result<usize, Error> {
-        if payload.len() > MAXMSGLEN {
-            Err(Error::Input)
-        } else if self.initiator && self.pattern.is_oneway() {
+        if self.initiator && self.pattern.is_oneway() {
             Err(StateProblem::OneWay.into())
+        } else if payload.len() > MAXMSGLEN {
+            Err(Error::Input)
         } else {
             let cipher = if self.initiator { &self.cipherstates.1 } else { &self.cipherstates.0 };
             cipher.decrypt(nonce, payload, message)
